@@ -122,8 +122,22 @@ def seg_pairs(tier, seed, workers=16):
                 cuts = sorted(rng.sample(range(1, T), min(rng.randint(2, 4), T - 1)))
                 jobs.append((c, cuts + ["end"]))
                 owner.append(ci)
+        # running on after everything is done (a fixed runtime longer than the work,
+        # a resume past completion): judged as traces only
+        past = []
+        for ci, (c, p) in enumerate(zip(cfgs, plains)):
+            if p["end"]["completed"]:
+                T = p["end"]["t"] // c.get("K", 1)
+                past.append((c, [T + 3]))
+                past.append((c, [max(1, T // 2), "end", "past"]))
         segd = list(ex.map(seg_job, jobs, chunksize=2))
+        pastd = list(ex.map(seg_job, past, chunksize=2))
     pairs, traces = [], []
+    for tr in pastd:
+        t2 = dict(tr)
+        t2["steps"] = runsim.delta_encode([dict(s) for s in tr["steps"]])
+        t2["tag"] = "seg"
+        traces.append(t2)
     canon_plain = {}
     for ci, tr in zip(owner, segd):
         if ci not in canon_plain:
